@@ -9,6 +9,7 @@
 //
 //	Lock / Unlock            recv.<mutex field>.Lock() / .Unlock(); `defer recv.mtx.Unlock()` is an
 //	                         Unlock before every Return that follows it
+//	RLock / RUnlock          the shared (reader) side of a sync.RWMutex field, same treatment
 //	ReadField f              recv.f (or something reached through it, or through a local alias
 //	                         `x := recv.f`) is read
 //	WriteField f             recv.f, or memory reached through it (recv.f.X[i] |= ..), is assigned
@@ -42,7 +43,7 @@ type event struct{ kind, a, b string }
 func (e event) coq() string {
 	q := func(s string) string { return "\"" + strings.ReplaceAll(s, "\"", "'") + "\"%string" }
 	switch e.kind {
-	case "Lock", "Unlock", "Return":
+	case "Lock", "Unlock", "RLock", "RUnlock", "Return":
 		return e.kind
 	case "PassField":
 		return fmt.Sprintf("PassField %s %s", q(e.a), q(e.b))
@@ -326,6 +327,10 @@ func (w *walker) call(c *ast.CallExpr) []event {
 					return []event{{kind: "Lock"}}
 				case "Unlock":
 					return []event{{kind: "Unlock"}}
+				case "RLock": // shared (reader) side of a sync.RWMutex
+					return []event{{kind: "RLock"}}
+				case "RUnlock":
+					return []event{{kind: "RUnlock"}}
 				}
 				return []event{{kind: "Unsupported", a: "mutex operation " + sel.Sel.Name}}
 			}
@@ -682,7 +687,7 @@ func (w *walker) stmtL(s ast.Stmt, in []path, label string) outcome {
 		var now, later []event
 		for _, e := range evs {
 			switch e.kind {
-			case "Lock", "Unlock", "CallWorker", "Unsupported", "WriteField":
+			case "Lock", "Unlock", "RLock", "RUnlock", "CallWorker", "Unsupported", "WriteField":
 				later = append(later, e)
 			default:
 				now = append(now, e)
